@@ -77,7 +77,9 @@ class PrintAstVisitor(Visitor):
         return join(node.definitions, "\n\n")
 
     @staticmethod
-    def leave_operation_definition(node: PrintedNode, *_args: Any) -> str:
+    def leave_operation_definition(
+        node: PrintedNode, key: Any = None, parent: Any = None, *_args: Any
+    ) -> str:
         var_defs = (
             wrap("(\n", join(node.variable_definitions, "\n"), "\n)")
             if has_multiline_items(node.variable_definitions)
@@ -92,8 +94,12 @@ class PrintAstVisitor(Visitor):
             " ",
         )
         # Anonymous queries with no directives or variable definitions can use the
-        # query short form.
-        return ("" if prefix == "query" else prefix + " ") + node.selection_set
+        # query short form, unless the selection set would then be read as the body
+        # of a preceding type definition or extension that has no body itself.
+        use_short_form = prefix == "query" and not follows_definition_without_body(
+            key, parent
+        )
+        return ("" if use_short_form else prefix + " ") + node.selection_set
 
     @staticmethod
     def leave_variable_definition(node: PrintedNode, *_args: Any) -> str:
@@ -441,6 +447,27 @@ class PrintAstVisitor(Visitor):
     @staticmethod
     def leave_directive_argument_coordinate(node: PrintedNode, *_args: Any) -> str:
         return f"@{node.name}{wrap('(', node.argument_name, ':)')}"
+
+
+def follows_definition_without_body(key: Any, parent: Any) -> bool:
+    """Check whether the previous definition could absorb a following "{"."""
+    if not (isinstance(key, int) and key > 0 and isinstance(parent, tuple)):
+        return False
+    previous = parent[key - 1]
+    if previous.kind in (
+        "object_type_definition",
+        "object_type_extension",
+        "interface_type_definition",
+        "interface_type_extension",
+        "input_object_type_definition",
+        "input_object_type_extension",
+    ):
+        return not previous.fields
+    if previous.kind in ("enum_type_definition", "enum_type_extension"):
+        return not previous.values
+    if previous.kind == "schema_extension":
+        return not previous.operation_types
+    return False
 
 
 def join(strings: Strings | None, separator: str = "") -> str:
